@@ -205,7 +205,7 @@ Proof.
 Qed.
 
 (** * base64-encode-header: a sequence of encoded words =?name?B?w?= separated by nl TAB whose payloads,
-    concatenated, are the one-shot encoding (when the first line has room for at least one quantum) *)
+    concatenated, are the one-shot encoding; when the first line has no room for a quantum the text starts with a fold *)
 Lemma chop_concat : forall fuel s n, concat (chop fuel s n) = s.
 Proof.
   induction fuel as [|f IH]; intros s n; cbn [chop].
@@ -231,26 +231,30 @@ Qed.
 
 Theorem header_words (name bs : list Z) (start_col max_col : Z) (nl : list Z) :
   let prefix := [61; 63] ++ name ++ [63; 66; 63] in
-  0 < round4 (round4 (max_col - (2 + Z.of_nat (length prefix))) - start_col) ->
-  exists words,
-    b64_header name bs start_col max_col nl = join (nl ++ [9]) (map (fun w => prefix ++ w ++ [63; 61]) words) /\
-    concat words = b64_encode bs.
+  exists lead words,
+    b64_header name bs start_col max_col nl = lead ++ join (nl ++ [9]) (map (fun w => prefix ++ w ++ [63; 61]) words) /\
+    concat words = b64_encode bs /\ (lead = [] \/ lead = nl ++ [9]).
 Proof.
-  intros prefix Hfirst. unfold b64_header. fold prefix.
-  set (first := round4 (round4 (max_col - (2 + Z.of_nat (length prefix))) - start_col)) in *.
+  intros prefix. unfold b64_header. fold prefix.
+  set (first := Z.max 0 (round4 (round4 (max_col - (2 + Z.of_nat (length prefix))) - start_col))).
   destruct (Z.of_nat (length (b64_encode bs)) <=? first).
-  - exists [b64_encode bs]. split; [reflexivity | cbn; apply app_nil_r].
-  - assert (0 <? first = true) as -> by lia.
-    set (eff := Z.to_nat (round4 (max_col - (2 + Z.of_nat (length prefix))))).
+  - exists [], [b64_encode bs]. split; [reflexivity | split; [cbn; apply app_nil_r | left; reflexivity]].
+  - set (eff := Z.to_nat (round4 (max_col - (2 + Z.of_nat (length prefix))))).
     set (rest := chop (length (b64_encode bs)) (skipn (Z.to_nat first) (b64_encode bs)) eff).
-    exists (firstn (Z.to_nat first) (b64_encode bs) :: rest). split.
-    + rewrite <- (wrap_join prefix [63; 61] (nl ++ [9])) by discriminate.
-      assert (Hr : rest <> []) by apply chop_nonempty.
-      destruct rest as [|r0 rr] eqn:Er; [congruence|].
-      change (join ([63; 61] ++ (nl ++ [9]) ++ prefix) (firstn (Z.to_nat first) (b64_encode bs) :: r0 :: rr))
-        with (firstn (Z.to_nat first) (b64_encode bs) ++ ([63; 61] ++ (nl ++ [9]) ++ prefix) ++ join ([63; 61] ++ (nl ++ [9]) ++ prefix) (r0 :: rr)).
-      repeat rewrite <- app_assoc. reflexivity.
-    + cbn [concat]. unfold rest. rewrite chop_concat. apply firstn_skipn.
+    assert (Hr : rest <> []) by apply chop_nonempty.
+    destruct (0 <? first) eqn:Ef.
+    + exists [], (firstn (Z.to_nat first) (b64_encode bs) :: rest). split; [|split; [|left; reflexivity]].
+      * rewrite app_nil_l. rewrite <- (wrap_join prefix [63; 61] (nl ++ [9])) by discriminate.
+        destruct rest as [|r0 rr] eqn:Er; [congruence|].
+        change (join ([63; 61] ++ (nl ++ [9]) ++ prefix) (firstn (Z.to_nat first) (b64_encode bs) :: r0 :: rr))
+          with (firstn (Z.to_nat first) (b64_encode bs) ++ ([63; 61] ++ (nl ++ [9]) ++ prefix) ++ join ([63; 61] ++ (nl ++ [9]) ++ prefix) (r0 :: rr)).
+        repeat rewrite <- app_assoc. reflexivity.
+      * cbn [concat]. unfold rest. rewrite chop_concat. apply firstn_skipn.
+    + exists (nl ++ [9]), rest. split; [|split; [|right; reflexivity]].
+      * rewrite <- (wrap_join prefix [63; 61] (nl ++ [9])) by exact Hr.
+        repeat rewrite <- app_assoc. reflexivity.
+      * unfold rest. rewrite chop_concat.
+        assert (first = 0) as -> by (apply Z.ltb_ge in Ef; unfold first in *; lia). reflexivity.
 Qed.
 
 Example stream_decode_example :
